@@ -5,6 +5,7 @@ import TantivyModel.Proofs.Store.Writer
 import TantivyModel.Proofs.Store.Merge
 import TantivyModel.Proofs.Store.Channel
 import TantivyModel.Model.Store.Version
+import TantivyModel.Proofs.Store.VInt32
 /-!
 # C09 — Stored documents are returned exactly as they were added
 
@@ -65,6 +66,27 @@ shortcut never drops a document) -/
 theorem C09_serialized_doc_nonempty (isStored : BitVec 32 → Bool) (doc : List (BitVec 32 × FieldInput)) :
     serializeDoc isStored doc ≠ [] :=
   encStoredDoc_ne_nil _
+
+/-! ### `TantivyDocument` (CompactDoc): length-prefixed values in `node_data` -/
+
+/-- `serialize_vint_u32` (the unrolled threshold ladder, extracted with its comparison operators and
+thresholds) read back by `read_u32_vint_no_advance`: every `u32`, in particular every threshold
+2^7, 2^14, 2^21, 2^28 and its neighbours, comes back with the number of bytes that was written -/
+theorem C09_vint_u32_roundtrip (v : Nat) (hv : v < 4294967296) (rest : Bytes) :
+    readU32Vint (serializeVintU32 v ++ rest) = some (v, (serializeVintU32 v).length) :=
+  readU32Vint_serialize v hv rest
+
+/-- the ladder never selects fewer bytes than the value needs, nor more than the reader scans -/
+theorem C09_vint_u32_ladder_sound (v : Nat) (hv : v < 4294967296) :
+    1 ≤ Gen.vintU32NumBytes v ∧ Gen.vintU32NumBytes v ≤ Gen.VINT_U32_MAX_LEN ∧
+      v < 128 ^ Gen.vintU32NumBytes v :=
+  ladder_sound v hv
+
+/-- `write_bytes_into` / `binary_deserialize_bytes`: a string, facet, bytes value or child table of
+any length below 4 GiB held by a `TantivyDocument` is read back exactly, whatever follows it -/
+theorem C09_compact_doc_bytes_roundtrip (data rest : Bytes) (h : data.length < 4294967296) :
+    cdReadBytes (cdWriteBytes data ++ rest) = some data :=
+  cdReadBytes_write data rest h
 
 /-! ### skip index -/
 
@@ -369,5 +391,9 @@ example : runChan (fun (s : List Nat) (m : Nat) => s ++ [m]) 3
 example : pickDocs [[[1], [2]], [[3]]] [1, 0, 0] = some [[3], [1], [2]] := by decide
 
 example : SameVersion 2 := by unfold SameVersion; decide
+
+example : serializeVintU32 2097152 = [0, 0, 0, 129] := by decide
+example : serializeVintU32 2097151 = [127, 127, 255] := by decide
+example : readU32Vint ([0, 0, 0, 129, 7] : Bytes) = some (2097152, 4) := by decide
 
 end TantivyModel.C09
